@@ -79,6 +79,26 @@ def run_fresh(fn, operands=()):
   if after != before: return f'alias operand-changed {out}'
   return out
 
+def run_read_fresh(fn, x):
+  """like run() for an operation that READS the Bits object x (slice, bit, concat, extension, ...): the result is a value of
+  its own — updating x in place afterwards must not change it, and updating the result in place must not change x."""
+  try:
+    r1 = fn()
+  except Exception as e:
+    return canon_exc(e)
+  out = canon_bits(r1)
+  if not isinstance(r1, Bits) or not isinstance(x, Bits): return out
+  try:
+    n, v = int(x.nbits), int(x.uint())
+    x @= v ^ ((1 << n) - 1)
+    if canon_bits(r1) != out: return f'alias value-read-earlier-changed-when-the-source-was-updated {out} -> {canon_bits(r1)}'
+    x @= v
+    r1[0] = 1 - int(r1[0])
+    if int(x.uint()) != v: return f'alias writing-the-result-changed-the-source {out}: source {v} -> {int(x.uint())}'
+  except Exception as e:
+    return f'alias probe-raised {type(e).__name__} {out}'
+  return out
+
 def run_int(fn):
   try:
     return f'int {int(fn())}'
